@@ -52,6 +52,7 @@ ASSUMPTIONS = [
 REQUIRED_COUNTERS = [
     "files_exported", "rom_decoded", "rom_commands_compared", "rom_loads_compared", "parse_compared",
     "neg_wrong_kek", "neg_model_rejected", "neg_spsdk_judged", "cfg_exports", "cli_exports", "witness_load_count",
+    "second_exports_judged",
 ]
 CASE_TIMEOUT_S = 300
 WATCHDOG_S = {"quick": 1200, "thorough": 7200}
@@ -391,7 +392,13 @@ def build_api(spec):
         cb, signer = make_cert_block(spec["chain"])
         img.cert_block = cb
         img.signature_provider = get_signature_provider(local_file_key=pki.path(signer, "priv", "pem"))
-    return img.export(padding=spec["padding"])
+    data = img.export(padding=spec["padding"])
+    if spec.get("export_twice"):
+        # the same image object asked again: export may not consume or advance anything (keys, nonce, section state);
+        # it is the second file that is judged
+        spec["first_export_len"] = len(data)
+        data = img.export(padding=spec["padding"])
+    return data
 
 
 def cfg_command(c, files_dir, idx):
@@ -964,10 +971,16 @@ def run_case(case, ctx):  # noqa: C901
 
     if kind == "api":
         spec = gen_spec(rng, case["ver"], case["k"])
+        spec["export_twice"] = case["k"] % 3 == 2
         data = export_or_report(ctx, spec, lambda: build_api(spec), "api")
         if data is None:
             ctx.ok(["api", case["ver"], "not built"], nontrivial=False)
             return
+        if spec["export_twice"]:
+            ctx.count("second_exports_judged")
+            if spec.get("first_export_len") != len(data):
+                ctx.violation("sb2-second-export-of-the-same-object-has-another-length",
+                              {"ver": spec["ver"], "first": spec.get("first_export_len"), "second": len(data)})
         run_file(ctx, spec, data, "api")
         return
 
